@@ -138,7 +138,15 @@ func genLineAdj(t *rapid.T, label string, c int, charge bool, o Opts) LineAdj {
 			a.Quantity = quantity(t, label+"_q")
 		}
 	}
+	// a row without a reason, where its numbers alone keep it from being empty
+	if nonZero(a.Rate) || (nonZero(strings.TrimSuffix(a.Percent, "%")) && a.Percent != "") {
+		a.Bare = rapid.IntRange(0, 3).Draw(t, label+"_bare") == 0
+	}
 	return a
+}
+
+func nonZero(s string) bool {
+	return s != "" && strings.Trim(s, "-0.") != ""
 }
 
 func genSubLine(t *rapid.T, label string, c int, cur string, o Opts, foreignOK bool) (SubLine, []Rate) {
